@@ -9,12 +9,12 @@ def run(c):
     res_all = []
     st_h = {}
     # hammer: run configurations one after another (each uses its own thread count)
-    cfgs = [(2, 1, 5), (4, 1, 6), (8, 2, 8), (16, 1, 8), (16, 4, 6), (12, 3, 5)]
+    cfgs = [(2, 1, 5), (4, 1, 6), (8, 2, 8), (16, 1, 8), (16, 4, 6), (12, 3, 5), (1, 2, 8), (1, 64, 6)]
     for i, (th, nb, kp) in enumerate(cfgs):
-        r = core.run_proc([B.exe("rel", "h_tt"), "hammer", str(c.seed * 100 + i), str(th), str(ops * 16 // th // 2), str(nb), str(kp)], timeout=3600)
+        r = core.run_proc([B.exe("rel", "h_tt"), "hammer", str(c.seed * 100 + i), str(th), str((ops * 16 // th // 2) if th > 1 else ops // 2), str(nb), str(kp)], timeout=3600)
         c.absorb("tt-hammer", [r])
         for k, v in r.stats.items():
-            if k.startswith("hammer_") and k not in ("hammer_threads", "hammer_keys", "hammer_buckets"):
+            if k.startswith("hammer_") and k not in ("hammer_threads", "hammer_keys", "hammer_buckets", "hammer_twin_keys"):
                 st_h[k] = st_h.get(k, 0) + v
     env_tsan = {"TSAN_OPTIONS": "halt_on_error=0:report_signal_unsafe=0"}
     rt = core.run_proc([B.exe("tsan", "h_tt"), "hammer", str(c.seed), "8", str(ops // 20), "2", "6"], env=env_tsan, timeout=3600)
@@ -35,7 +35,7 @@ def run(c):
     c.evaluations = hits + st_h.get("hammer_misses", 0) + st_h.get("hammer_inserts", 0) + st_b.get("bounds_ops", 0) + st_p.get("ply_cases", 0) + st_p.get("tbregion_ops", 0)
     c.distinct = st_b.get("bounds_sizes", 0) + len(cfgs) + st_p.get("tbregion_rounds", 0)
     c.rule = ("(1) hammer: 2..16 threads on 1..4 buckets with 5..8 keys each (more keys than slots): every stored record is a fixed function of (key, 16-bit nonce kept in evalScore); "
-              "every probe hit is re-derived and compared (generation/busy excluded: probes legitimately rewrite them); also under TSan and ASan; (2) ply shift: all mate-band scores x store ply x "
+              "every probe hit is re-derived and compared (generation/busy excluded: probes legitimately rewrite them); also under TSan and ASan; two single-threaded configurations in which every second key is the twin of its neighbour (differs by exactly the data-word bits of one in-place field update: generation, busy flag, bound type), so that a slot whose two words were not rewritten together answers for a key it was never stored under; (2) ply shift: all mate-band scores x store ply x "
               "probe ply through insert/probe; (3) bounds under ASan: every table size 2^n, 2^n+-4, +-1, 3/2, 5/4, 3/4+2 (n=9..), Hash 1..64 MB, reduced sizes with a resident tablebase, "
               "1024, 100 random sizes >=512 x all 65536 top-16-bit values (every 7th for tables > 2^18) x 9 low-bit patterns: insert+probe inside the heap block; (4) tablebase region: "
               "checksum of the reserved region and DTM re-probes unchanged by random inserts/probes/generation changes incl. boundary keys, across clear()/reSize. "
